@@ -8,7 +8,7 @@ def dispatch (op : String) (args : List String) : Option String :=
   | "walk", [h] => do
       let bs ← fromHex h
       pure (match walk bs with
-        | some ns => "ok " ++ (if ns.isEmpty then "-" else showAll ns)
+        | some ns => "ok " ++ (if ns.isEmpty then "-" else typesAll ns)
         | none => "err")
   | _, _ => none
 
